@@ -338,6 +338,8 @@ class Engine(object):
             return self._eval_spec(ctx, sfr, text)
         except (AttributeError, TypeError, KeyError, IndexError) as e:
             raise Unsupported('spec expression %r cannot be evaluated on this path: %r' % (text, e))
+        except RaiseSig as rs:
+            raise Unsupported('spec expression %r raises on this path: %s' % (text, self.describe_exc(ctx, rs.exc)))
 
     def _eval_spec(self, ctx, sfr, text):
         if callable(text):
@@ -614,6 +616,12 @@ class Engine(object):
                 return NONE
             return VBound(selfv, VSpecFn(exc_init, key))
         m = self.externals.get(key)
+        if m is None and self.classes.has(c):
+            # a model registered for a base class is inherited
+            for b in self.classes.mro(c)[1:]:
+                m = self.externals.get('%s.%s' % (b, name))
+                if m is not None:
+                    break
         if m is not None:
             if selfv is None:
                 return VSpecFn(m, key)
